@@ -129,3 +129,184 @@ theorem parseHeaders_render (ps : List (Bytes × Bytes)) (x : Bytes)
         rfl
 
 end Resp
+
+namespace Resp
+
+/-! ### the head of the response writer in normal form -/
+
+/-- the header pairs the handler's map contributes: every value of every key that is not a declared trailer -/
+def handlerPairs (tkeys : List Bytes) (h : Header) : List (Bytes × Bytes) :=
+  (h.map fun e => if tkeys.contains e.1 then [] else e.2.map fun v => (e.1, v)).flatten
+
+/-- the headers eoncodeHead adds on its own -/
+def autoPairs (g : Cfg) (r : R) : List (Bytes × Bytes) :=
+  (if r.hasBody && hget r.header kCT == [] then [(kCT, str "text/plain; charset=utf-8")] else []) ++
+  (if !r.chunked && hget r.header kCL == [] then
+      [(kCL, if r.hasBody && (match r.bodyBuffer with | some b => b.length | none => 0) > 0
+              then fmtDec (match r.bodyBuffer with | some b => b.length | none => 0) else str "0")] else []) ++
+  (if g.reqClose && hget r.header kConn == [] then [(kConn, str "close")] else []) ++
+  (if hget r.header kDate == [] then [(kDate, datePlaceholder)] else [])
+
+/-- the status line without its CRLF -/
+def statusBody (g : Cfg) (r : R) : Bytes :=
+  g.proto ++ [32, UInt8.ofNat (48 + r.statusCode / 100), UInt8.ofNat (48 + (r.statusCode % 100) % 256 / 10),
+    UInt8.ofNat (48 + r.statusCode % 10), 32] ++ r.status
+
+theorem headerLines_pairs (tkeys : List Bytes) (h : Header) :
+    headerLines tkeys h = renderPairs (handlerPairs tkeys h) := by
+  unfold headerLines renderPairs handlerPairs
+  induction h with
+  | nil => rfl
+  | cons e t ih =>
+    simp only [List.map_cons, List.flatten_cons, List.map_append, List.flatten_append]
+    rw [ih]
+    congr 1
+    split
+    · rfl
+    · simp [List.map_map, Function.comp_def]
+
+theorem headBytes_normal (g : Cfg) (r : R) :
+    headBytes g r = statusBody g r ++ 13 :: 10 ::
+      (renderPairs (autoPairs g r ++ handlerPairs (hget r.header kTrailer) r.header) ++ 13 :: 10 :: []) := by
+  have e1 : str "Content-Type: text/plain; charset=utf-8\r\n" = headerLine kCT (str "text/plain; charset=utf-8") := by decide
+  have e2 : str "Content-Length: " = kCL ++ [58, 32] := by decide
+  have e3 : str "Connection: close\r\n" = headerLine kConn (str "close") := by decide
+  unfold headBytes autoPairs statusLine statusBody
+  rw [headerLines_pairs, e1, e2, e3]
+  by_cases c1 : (r.hasBody && hget r.header kCT == []) = true <;>
+  by_cases c2 : (!r.chunked && hget r.header kCL == []) = true <;>
+  by_cases c3 : (g.reqClose && hget r.header kConn == []) = true <;>
+  by_cases c4 : (hget r.header kDate == []) = true <;>
+  simp only [c1, c2, c3, c4, ↓reduceIte, Bool.false_eq_true] <;>
+  simp [renderPairs, headerLine, CRLF, List.append_assoc] <;>
+  (first | rfl | (split <;> (first | rfl | (split <;> first | rfl | contradiction) | contradiction)))
+
+end Resp
+
+namespace Resp
+
+theorem decDigits_num (f n : Nat) : ∀ c ∈ decDigits f n, isNum c = true := by
+  induction f generalizing n with
+  | zero => intro c hc; simp [decDigits] at hc
+  | succ f ih =>
+    have hd : ∀ m, m < 10 → isNum (UInt8.ofNat (48 + m)) = true := by decide
+    unfold decDigits
+    split
+    · rename_i h10
+      intro c hc
+      simp only [List.mem_singleton] at hc
+      rw [hc]; exact hd n h10
+    · intro c hc
+      simp only [List.mem_append, List.mem_singleton] at hc
+      rcases hc with hc | hc
+      · exact ih _ c hc
+      · rw [hc]; exact hd _ (Nat.mod_lt _ (by decide))
+
+theorem num_noCR (l : Bytes) (h : ∀ c ∈ l, isNum c = true) : noCR l := by
+  intro c hc hcr
+  have := h c hc
+  rw [hcr] at this
+  exact absurd this (by decide)
+
+theorem digit_ne_cr : ∀ x, x ≤ 9 → UInt8.ofNat (48 + x) ≠ 13 := by decide
+
+/-- what the handler must respect for the head to be parseable: no CR in the protocol string, the
+reason phrase and the values, header names without colon/CR and not empty, a status code of at most
+three digits -/
+structure SaneHead (g : Cfg) (r : R) : Prop where
+  proto : noCR g.proto
+  status : noCR r.status
+  code : r.statusCode ≤ 999
+  names : ∀ p ∈ handlerPairs (hget r.header kTrailer) r.header, nameOk p.1
+  values : ∀ p ∈ handlerPairs (hget r.header kTrailer) r.header, noCR p.2
+
+theorem statusBody_noCR (g : Cfg) (r : R) (h : SaneHead g r) : noCR (statusBody g r) := by
+  intro c hc
+  unfold statusBody at hc
+  simp only [List.mem_append, List.mem_cons, List.mem_nil_iff, or_false] at hc
+  have hcode := h.code
+  rcases hc with (hc | hc | hc | hc | hc | hc) | hc
+  · exact h.proto c hc
+  · rw [hc]; decide
+  · rw [hc]; exact digit_ne_cr _ (by omega)
+  · rw [hc]; exact digit_ne_cr _ (by omega)
+  · rw [hc]; exact digit_ne_cr _ (by omega)
+  · rw [hc]; decide
+  · exact h.status c hc
+
+theorem autoPairs_ok (g : Cfg) (r : R) : ∀ p ∈ autoPairs g r, nameOk p.1 ∧ noCR p.2 := by
+  have n1 : nameOk kCT := by refine ⟨by decide, ?_⟩; decide
+  have n2 : nameOk kCL := by refine ⟨by decide, ?_⟩; decide
+  have n3 : nameOk kConn := by refine ⟨by decide, ?_⟩; decide
+  have n4 : nameOk kDate := by refine ⟨by decide, ?_⟩; decide
+  have v1 : noCR (str "text/plain; charset=utf-8") := by unfold noCR; decide
+  have v3 : noCR (str "close") := by unfold noCR; decide
+  have v4 : noCR datePlaceholder := by unfold noCR; decide
+  have v0 : noCR (str "0") := by unfold noCR; decide
+  intro p hp
+  unfold autoPairs at hp
+  simp only [List.mem_append] at hp
+  rcases hp with ((hp | hp) | hp) | hp
+  · split at hp
+    · simp at hp; rw [hp]; exact ⟨n1, v1⟩
+    · simp at hp
+  · split at hp
+    · simp at hp; rw [hp]
+      refine ⟨n2, ?_⟩
+      dsimp only
+      have hv : ∀ (l : Nat), noCR (if r.hasBody = true ∧ 0 < l then fmtDec l else str "0") := by
+        intro l
+        split
+        · exact num_noCR _ (decDigits_num _ _)
+        · exact v0
+      exact hv _
+    · simp at hp
+  · split at hp
+    · simp at hp; rw [hp]; exact ⟨n3, v3⟩
+    · simp at hp
+  · split at hp
+    · simp at hp; rw [hp]; exact ⟨n4, v4⟩
+    · simp at hp
+
+/-- **head round trip.** The reference parser reads the bytes of `headBytes` back as the status line and
+exactly the automatic headers followed by the handler's non-trailer header values, and stops where the
+body begins. -/
+theorem parseHead_headBytes (g : Cfg) (r : R) (X : Bytes) (h : SaneHead g r) :
+    parseHead (headBytes g r ++ X) =
+      some (statusBody g r, autoPairs g r ++ handlerPairs (hget r.header kTrailer) r.header, X) := by
+  rw [headBytes_normal]
+  have e : statusBody g r ++ 13 :: 10 ::
+      (renderPairs (autoPairs g r ++ handlerPairs (hget r.header kTrailer) r.header) ++ 13 :: 10 :: []) ++ X =
+      statusBody g r ++ 13 :: 10 ::
+      (renderPairs (autoPairs g r ++ handlerPairs (hget r.header kTrailer) r.header) ++ 13 :: 10 :: X) := by
+    simp [List.append_assoc]
+  rw [e]
+  unfold parseHead
+  rw [takeLine_render _ _ (statusBody_noCR g r h)]
+  dsimp only
+  have hk : ∀ p ∈ autoPairs g r ++ handlerPairs (hget r.header kTrailer) r.header, nameOk p.1 := by
+    intro p hp
+    rcases List.mem_append.mp hp with hp | hp
+    · exact (autoPairs_ok g r p hp).1
+    · exact h.names p hp
+  have hv : ∀ p ∈ autoPairs g r ++ handlerPairs (hget r.header kTrailer) r.header, noCR p.2 := by
+    intro p hp
+    rcases List.mem_append.mp hp with hp | hp
+    · exact (autoPairs_ok g r p hp).2
+    · exact h.values p hp
+  rw [parseHeaders_render _ X hk hv]
+  · rfl
+  · -- fuel: every pair renders to at least one byte
+    have hlen : ∀ (ps : List (Bytes × Bytes)), ps.length ≤ (renderPairs ps).length := by
+      intro ps
+      induction ps with
+      | nil => simp [renderPairs]
+      | cons p t ih =>
+        simp only [renderPairs, List.map_cons, List.flatten_cons, List.length_append, List.length_cons] at ih ⊢
+        have : 1 ≤ (headerLine p.1 p.2).length := by simp [headerLine, CRLF]; omega
+        omega
+    have := hlen (autoPairs g r ++ handlerPairs (hget r.header kTrailer) r.header)
+    simp only [List.length_append, List.length_cons] at this ⊢
+    omega
+
+end Resp
